@@ -569,6 +569,7 @@ struct Side {
     blocked_in_call_since: Arc<Mutex<Option<Instant>>>,
     blocked_done: Arc<AtomicBool>,
     had_remote: bool,
+    mode_webrtc: bool,
     closed_by_harness: bool,
     /// kinds already reported on this side (reported once, not waited for again)
     failed: std::collections::BTreeSet<String>,
@@ -685,6 +686,7 @@ fn make_side(name: &'static str, mode: &str, log: &Log, with_pending_calls: bool
         blocked_in_call_since: Arc::new(Mutex::new(None)),
         blocked_done: Arc::new(AtomicBool::new(false)),
         had_remote: false,
+        mode_webrtc: mode == "WebRtc",
         closed_by_harness: false,
         failed: Default::default(),
         ever_connected,
@@ -1225,6 +1227,19 @@ async fn judge_one(side: &mut Side, on: &'static str, cap: Option<Duration>, def
     }
     judge_side(side, on, cap, log).await;
     let after = side.snapshot();
+    // A channel created AFTER the terminating event (the application does not know yet, or the
+    // connection sits in a non-terminal Disconnected state with its dead transports still in
+    // place) is a channel like any other: the explicit close() below has to end it, and a task
+    // parked in its recv() has to return. It joins the watched channels of this side.
+    if side.mode_webrtc && !side.closed_by_harness {
+        if let Some(pc) = side.pc.clone() {
+            if let Ok(dc) = pc.create_data_channel("late", Some(DataChannelConfig { ordered: true, ..Default::default() })) {
+                log.step(&format!("{}.create_data_channel(late) after the event", side.name));
+                let w = watch_dc(dc, "late", log, side.name);
+                side.dcs.lock().unwrap().push(w);
+            }
+        }
+    }
     judge_second_close(side, on, log);
     if side.pc.is_some() || side.closed_by_harness {
         judge_ended(side, on, log).await;
